@@ -45,6 +45,13 @@ bool operator<(const ElemNR &, const ElemNR &);
 void swap(ElemNR &, ElemNR &) noexcept;
 void swap(ElemTR &, ElemTR &) noexcept;
 
+#if __cplusplus >= 202002L
+#include <compare>
+std::strong_ordering operator<=>(const ElemTC &, const ElemTC &);
+std::strong_ordering operator<=>(const ElemTR &, const ElemTR &);
+std::strong_ordering operator<=>(const ElemNR &, const ElemNR &);
+#endif
+
 // stateful comparator with a coarse order
 struct GhostCmp {
   int token;
